@@ -2465,7 +2465,13 @@ class BDD(dd._abc.BDD[_Ref]):
             v, succ, umap, level_map)
         q = self._load(
             w, succ, umap, level_map)
-        r = self.find_or_add(j, p, q)
+        # The levels in `self` can be ordered
+        # differently than in the file
+        # (when `levels=False`), so the node is
+        # rebuilt from the variable at level `j`,
+        # as in `_copy_bdd()`.
+        g = self.find_or_add(j, -1, 1)
+        r = self._ite(g, q, p)
         if r <= 0:
             raise AssertionError(r)
         umap[abs(u)] = r
